@@ -4,6 +4,21 @@ import json, os, subprocess
 HERE = os.path.dirname(os.path.dirname(os.path.abspath(__file__)))
 
 CLAIMED = {
+ "C15": dict(
+   technique="differential property testing: file loading vs line-by-line entry in-process, and `abasic FILE` vs piped interactive session as child processes over all 8 option sets",
+   text="Generated well-formed source files (shuffled line order, earlier duplicate definitions, LF/CRLF, random spacing/case) are loaded through SourceFileAnalyzer::into_interpreter and typed into a second interpreter; LIST and the full RUN event sequence must be identical. At process level the CLI is run in file mode and in piped interactive mode for every combination of --warnings / --tracing / --skip-check; stdout (minus the banner), stderr (minus static-analysis lines) and exit status must be identical.",
+   note="Drives the debug build of abasic-cli with piped stdin (rustyline's non-terminal path), private HOME, NO_COLOR=1; programs without RND for the process-level part (the CLI seeds from the clock).",
+   design="4/C15"),
+ "C19": dict(
+   technique="stateful model-based testing: generated page-event histories through a Rust transliteration of the page script driving the real JsInterpreter natively, differential against a shadow core interpreter after every adapter call",
+   text="Generated histories of load / submit / break / tick events are handled exactly as main.ts handles them (incl. the setTimeout chain with stale ticks, the recursion on Errored, the disabled-input end state); after every adapter call the state, the drained output records (type, text) and the error text must equal what the core interpreter produces for the same calls, no adapter assertion or the NewInterpreterRequested panic may fire, and after NEW a probe script must not distinguish the adapter from a fresh one.",
+   note="The transliteration of main.ts is a trusted model (TypeScript cannot be built here; the file's SHA-256 is recorded in the evidence); traps are native panics of the same Rust code.",
+   design="4/C19"),
+ "C20": dict(
+   technique="property-based protocol fuzzing of the real abasic-lsp child process over stdio with generated open/change/token sequences; validity predicate in UTF-16 units and differential against the in-process analyzer",
+   text="Each case starts a real abasic-lsp process, performs initialize / initialized, 1-12 generated didOpen / didChange / semanticTokens steps (C05 documents, non-ASCII documents, raw Unicode, character-by-character typing sequences), then shutdown / exit. Every step must be answered, the process must exit 0, every diagnostic and token must lie inside its line measured in UTF-16 units, tokens must be ordered, non-overlapping and within the advertised legend, and diagnostics and tokens must equal the analyzer's results converted to UTF-16 columns.",
+   note="Well-formed JSON-RPC only; a server silent for 60 s counts as inconclusive; debug build of abasic-lsp.",
+   design="4/C20"),
  "C06": dict(
    technique="differential property testing of two implementations (static analyzer vs interpreter) over generated well-typed, ill-typed and text-damaged lines and programs, with forced start lines and variable environments",
    text="Direction 1: every generated program the analyzer accepts is executed by RUN and from each of its lines under three variable environments and mixed replies; no execution may end in a syntax error, TYPE MISMATCH or UNDEF'D STATEMENT. Direction 2: every analyzer-rejected line without conditionals, control transfers, INPUT or user functions is run alone and must fail. Two confirmed disagreements that have no small repair are recorded as known findings under narrow keys.",
